@@ -19,7 +19,7 @@ def compStmts (s : Comp.St) : List Pil.Stmt :=
   ++ ((s.supSeqs.filter (·.len != 0)).map (fun e =>
         Pil.Stmt.sup (p ++ e.name) ((e.items.filter (!·.dummy)).map (itemRaw p))))
   ++ (s.strands.map (fun e => Pil.Stmt.strand (p ++ e.name) e.dummy ((e.items.filter (!·.dummy)).map (itemRaw p))))
-  ++ (s.structs.map (fun e => Pil.Stmt.struct (p ++ e.name) (some (String.ofList e.opt.fmtD ++ "nt"))
+  ++ (s.structs.map (fun e => Pil.Stmt.struct (p ++ e.name) (some (String.ofList e.opt.fmtG ++ "nt"))
         (e.strands.map (p ++ ·)) e.struct))
 
 mutual
